@@ -69,10 +69,14 @@ def e2e_case(axes, tol, method, rng, weighted):
         data = [[(i + 1) * 100 + m * 10 + g + rng.randint(0, 3) for g in range(len(ax))] for m in range(nm + (i % 2))]
         n_model = len(data)
         c0 = rng.randint(0, 3)
-        cols = [[1] * n_model, [c0 + j for j in range(n_model)]]   # always full column rank
+        idx = rng.random() < 0.4        # index-dependent matrices: the stacked problem must take the matrix of the dataset's OWN index
+        if idx:
+            cols = [[[1] * n_model, [c0 + g + j * (g + 1) for j in range(n_model)]] for g in range(len(ax))]
+        else:
+            cols = [[1] * n_model, [c0 + j for j in range(n_model)]]   # always full column rank
         w = [[rng.randint(1, 3) for _ in ax] for _ in range(n_model)] if i in weighted else []
         datasets.append({"label": f"ds{i}", "group": "default", "axis": [a / 2 for a in ax], "data": data, "scale": 1, "weight": w,
-                         "mcs": [{"scale": 1, "labels": ["a", "b"], "idx": False, "cols": cols}]})
+                         "mcs": [{"scale": 1, "labels": ["a", "b"], "idx": idx, "cols": cols}]})
     return {"groups": [{"label": "default", "link": True}], "datasets": datasets, "relations": [], "constraints": [], "penalties": [],
             "weights": [], "tol": tol / 2, "method": method}
 
@@ -153,8 +157,11 @@ def e2e_check(chk: Check, axes, tol, method, allowed, rng):
             continue
         for li, x in enumerate(d["axis"]):
             clp_at[(di, li)] = rd.clp.sel(spectral=x).values
-            mat = rd.matrix.values
-            fit = mat @ clp_at[(di, li)]
+            mat = rd.matrix.sel(spectral=x).transpose("time", "clp_label").values if "spectral" in rd.matrix.dims else rd.matrix.transpose("time", "clp_label").values
+            want_mat = np.array(d["mcs"][0]["cols"][li] if d["mcs"][0]["idx"] else d["mcs"][0]["cols"], dtype=float).T
+            if not np.array_equal(mat, want_mat):
+                chk.violation(key, f"{d['label']} at {x}: reported matrix {mat.tolist()} is not the matrix of this index {want_mat.tolist()}", rep)
+            fit = mat @ np.array([float(rd.clp.sel(spectral=x, clp_label=l)) for l in rd.matrix.coords["clp_label"].values])
             r = rd.residual.sel(spectral=x).values
             w = np.array([row[li] for row in d["weight"]], dtype=float) if d["weight"] else 1.0
             datacol = np.array([row[li] for row in d["data"]], dtype=float)
